@@ -168,11 +168,34 @@ class Context:
             cur_node, cur = cfg.nodes[rd[0][0]], rd[0][1].value
         return cur_node, cur
 
+    def call_path(self, cfg: CFG, node: Node, call: ast.Call) -> str | None:
+        """Dotted path of the called function with local aliases resolved by data flow: for
+        `t = self.transport; t.close()` -> "self.transport.close"; globals come back fully qualified.
+        None when the callee is not a plain attribute chain (a phi of two aliases, a call result ...)."""
+        return term_path(self.terms.of(cfg, node, call.func))
+
+    def expr_path(self, cfg: CFG, node: Node, e: ast.AST) -> str | None:
+        return term_path(self.terms.of(cfg, node, e))
+
     def fkey(self, f: Func) -> str:
         return f"{f.module.name}:{f.qualname[len(f.module.name) + 1:]}"
 
     def loc(self, f: Func, n) -> str:
         return f"{f.module.relpath}:{getattr(n, 'lineno', 0)}"
+
+
+def term_path(t) -> str | None:
+    from .terms import strip_sites
+
+    t = strip_sites(t)
+    if t[0] == "param":
+        return t[1]
+    if t[0] == "glob":
+        return t[1]
+    if t[0] == "attr":
+        base = term_path(t[1])
+        return None if base is None else f"{base}.{t[2]}"
+    return None
 
 
 # ---------------------------------------------------------------------- small AST predicates
